@@ -5,7 +5,8 @@
 EXTENDS AtsSM, AtsProps, Json
 
 CONSTANT Scenario,
-         Frozen      \* TRUE in scenarios where no migration overrides a fee under open bids
+         Frozen,     \* TRUE in scenarios where no migration overrides a fee under open bids
+         Native      \* TRUE in scenarios where every bid was created by this contract version
 
 View == <<st, cenv>>
 
@@ -21,14 +22,14 @@ StepOk ==
 \* Evaluated by TLC on every generated transition (ACTION_CONSTRAINT), including
 \* stuttering ones and ones whose target state was seen before.
 Emit ==
-    PrintT(ToJson([scen |-> Scenario, from |-> st, env |-> cenv, req |-> act'.req,
+    PrintT(ToJson([scen |-> Scenario, native |-> Native, from |-> st, env |-> cenv, req |-> act'.req,
                    outs |-> {Slim(st, o) : o \in act'.outs}]))
 
 CheckAndEmit == StepOk /\ Emit
 CheckOnly    == StepOk
 
 \* (M) every reachable state satisfies every state clause
-StateInv == StateClauses(st, Frozen) = {}
+StateInv == StateClauses(st, Frozen, Native) = {}
 
 \* C06 as an enabledness property over the pure Outcomes operator: in every reachable state,
 \* for every open order, the owner's cancel and an executor's expire are accepted
